@@ -1,5 +1,12 @@
 package main
 
+import (
+	"fmt"
+	"go/types"
+
+	"golang.org/x/tools/go/ssa"
+)
+
 // lockHeld returns the ghost predicate "the lock at loc is held (for writing, or reading if r) by this goroutine".
 func (fr *Frame) lockHeld(st *State, loc *Loc, r bool) Term {
 	name := "ghost_LockW"
@@ -16,4 +23,89 @@ func (fr *Frame) lockRef(loc *Loc) Term {
 		return loc.Base
 	}
 	return fr.opaquePtr(loc)
+}
+
+// guardedAccess emits the lock-discipline obligation for an access to a field declared `guarded T.f by mu`.
+func (fr *Frame) guardedAccess(ins *ssa.FieldAddr, st types.Type, base Term) {
+	sess := fr.vc.sess
+	if !sess.lockSweep {
+		return
+	}
+	if top := fr.vc.top; top != nil && top.contract != nil && top.contract.Construction {
+		return
+	}
+	named, ok := types.Unalias(st).(*types.Named)
+	if !ok || named.Obj().Pkg() == nil {
+		return
+	}
+	stt := st.Underlying().(*types.Struct)
+	fname := stt.Field(ins.Field).Name()
+	for _, g := range sess.specs.Guards {
+		if g.Pkg != named.Obj().Pkg().Path() || g.Type != named.Obj().Name() || g.Field != fname {
+			continue
+		}
+		// lock field
+		li := -1
+		for i := 0; i < stt.NumFields(); i++ {
+			if stt.Field(i).Name() == g.Lock {
+				li = i
+			}
+		}
+		if li < 0 {
+			sess.fatalf("guarded %s.%s by %s: no such lock field", g.Type, g.Field, g.Lock)
+		}
+		lloc := fr.te().FieldLoc(st, li, base)
+		var lref Term
+		if derefType(lloc.Typ) != nil {
+			lref = fr.te().Load(fr.cur, lloc) // pointer to a mutex
+		} else {
+			lref = fr.lockRef(lloc)
+		}
+		w := tSelect(fr.cur.Get("ghost_LockW", arraySort(SInt, SBool)), lref)
+		r := tSelect(fr.cur.Get("ghost_LockR", arraySort(SInt, SBool)), lref)
+		write := isWriteAccess(ins)
+		cond := tOr(w, r)
+		what := "read"
+		if write {
+			cond = w
+			what = "write"
+		}
+		// objects allocated by this function (not yet published) are exempt
+		cond = tOr(cond, Term{fmt.Sprintf("(not (old_alloc %s))", fr.rootOf(base).S), SBool})
+		p := fr.pos(ins)
+		name := fmt.Sprintf("lock:%s.%s@%s", g.Type, g.Field, fr.fn.Name())
+		fr.vc.oblige(name, fr.curReach, cond, fmt.Sprintf("%s of %s.%s with %s held", what, g.Type, g.Field, g.Lock), p)
+	}
+}
+
+// isWriteAccess reports whether the field address is stored through, or the loaded map/slice is updated.
+func isWriteAccess(fa *ssa.FieldAddr) bool {
+	refs := fa.Referrers()
+	if refs == nil {
+		return false
+	}
+	for _, r := range *refs {
+		switch r := r.(type) {
+		case *ssa.Store:
+			if r.Addr == ssa.Value(fa) {
+				return true
+			}
+		case *ssa.UnOp:
+			if lr := r.Referrers(); lr != nil {
+				for _, u := range *lr {
+					switch u := u.(type) {
+					case *ssa.MapUpdate:
+						if u.Map == ssa.Value(r) {
+							return true
+						}
+					case *ssa.Call:
+						if b, ok := u.Call.Value.(*ssa.Builtin); ok && (b.Name() == "delete" || b.Name() == "clear") && len(u.Call.Args) > 0 && u.Call.Args[0] == ssa.Value(r) {
+							return true
+						}
+					}
+				}
+			}
+		}
+	}
+	return false
 }
